@@ -340,3 +340,230 @@ def vc_distribution(cases, results):
             if op[0] == "contains" and isinstance(a, dict) and "b" in a:
                 d["contains_true" if a["b"] else "contains_false"] += 1
     return d
+
+
+# ====================================================================== C08: generalized hash tries
+
+GHT_SHAPES = {  # mirror of harness/h_coll/src/ght.rs::shapes(); checked against it at run time
+    "k1v1": {"nk": 1, "arity": 2},
+    "k2v1": {"nk": 2, "arity": 3},
+    "k2v0": {"nk": 2, "arity": 2},
+    "k1v2": {"nk": 1, "arity": 3},
+    "k3v1": {"nk": 3, "arity": 4},
+    "k0v2": {"nk": 0, "arity": 2},
+}
+GHT_KEY = "GhtInner/partial_cmp/incomparable-reaches-unreachable"
+
+
+def ght_op_term(op):
+    name, w = op[0], g_w(op[1])
+    if name == "ins":
+        return "GInsert %s %s" % (w, g_row(op[2]))
+    if name in ("merge", "lmerge"):
+        return "GMerge %s" % w
+    if name == "contains":
+        return "GContains %s %s" % (w, g_row(op[2]))
+    if name == "iter":
+        return "GIter %s" % w
+    if name == "prefix":
+        return "GPrefix %s %s" % (w, g_row(op[2]))
+    if name == "leaf":
+        return "GLeaf %s %s" % (w, g_row(op[2]))
+    return {"cmp": "GCmp", "eq": "GEq", "height": "GHeight", "is_bot": "GIsBot"}[name] + " " + w
+
+
+def ght_ans_term(op, a):
+    if not isinstance(a, dict):
+        raise ValueError(a)
+    if "panic" in a:
+        if op[0] == "cmp":
+            return "GACmp PPanic"
+        raise ValueError(a)
+    if "b" in a:
+        return "GABool %s" % g_bool(a["b"])
+    if "n" in a:
+        return "GANum %d" % a["n"]
+    if "rows" in a:
+        return "GARows %s" % g_rows(a["rows"])
+    if "optrows" in a:
+        return "GAOptRows " + ("None" if a["optrows"] is None else "(Some %s)" % g_rows(a["optrows"]))
+    if "cmp" in a:
+        return "GACmp " + ("PNone" if a["cmp"] == "None" else "(PSome %s)" % a["cmp"])
+    raise ValueError(a)
+
+
+def ght_term(case, res):
+    if "ans" not in res or len(res["ans"]) != len(case["ops"]):
+        return 3
+    try:
+        answers = "[" + "; ".join(ght_ans_term(o, a) for o, a in zip(case["ops"], res["ans"])) + "]"
+    except (ValueError, TypeError, KeyError):
+        return 3  # a panic outside partial_cmp, or an unparsable answer: never right
+    ops = "[" + "; ".join(ght_op_term(o) for o in case["ops"]) + "]"
+    return "(c08_chk %d%%nat %s %s)" % (GHT_SHAPES[case["shape"]]["nk"], ops, answers)
+
+
+def ght_oracle(case):
+    """expected answers from the history alone (Python sets); classification / statistics only"""
+    nk = GHT_SHAPES[case["shape"]]["nk"]
+    regs = [set(), set()]
+    out = []
+    for op in case["ops"]:
+        name, w = op[0], op[1]
+        s, o = regs[w], regs[1 - w]
+        if name == "ins":
+            s.add(tuple(op[2]))
+            out.append({"b": True})
+        elif name in ("merge", "lmerge"):
+            out.append({"b": not o <= s})
+            s |= o
+        elif name == "contains":
+            out.append({"b": tuple(op[2]) in s})
+        elif name == "iter":
+            out.append({"rows": sorted(list(r) for r in s)})
+        elif name == "prefix":
+            p = tuple(op[2])
+            out.append({"rows": sorted(list(r) for r in s if r[:len(p)] == p)})
+        elif name == "leaf":
+            r = tuple(op[2])
+            out.append({"optrows": sorted(list(x) for x in s if x[:nk] == r[:nk]) if r in s else None})
+        elif name == "cmp":
+            out.append({"cmp": "Eq" if s == o else "Lt" if s < o else "Gt" if s > o else "None"})
+        elif name == "eq":
+            out.append({"b": s == o})
+        elif name == "height":
+            out.append({"n": nk})
+        elif name == "is_bot":
+            out.append({"b": not s})
+    return out
+
+
+def ght_finding_key(case, res):
+    """Known class: every wrong answer is a partial_cmp of two incomparable tries that panicked
+    (unreachable!()) instead of returning None; any other wrong answer is not this finding."""
+    if case.get("k") != "ght" or "ans" not in res:
+        return None
+    exp = ght_oracle(case)
+    seen = False
+    for op, a, e in zip(case["ops"], res["ans"], exp):
+        if a == e:
+            continue
+        if op[0] == "cmp" and isinstance(a, dict) and "panic" in a and "unreachable" in a["panic"] \
+                and e == {"cmp": "None"}:
+            seen = True
+            continue
+        return None
+    return GHT_KEY if seen else None
+
+
+def gen_ght_case(rng, tier):
+    shape = rng.choice(sorted(GHT_SHAPES))
+    arity = GHT_SHAPES[shape]["arity"]
+    dom = rng.choice([2, 3, 4, 4, 4])
+    nops = rng.range(1, 40) if rng.chance(3, 4) else rng.range(1, 10)
+    # merges of the other register and re-inserted rows keep many pairs comparable (see the
+    # `cmp` histogram in the evidence), so wrong partial_cmp answers other than the known panic
+    # are not hidden
+    regs = [[], []]
+    ops = []
+
+    def row():
+        return [rng.below(dom) for _ in range(arity)]
+
+    while len(ops) < nops:
+        w = 1 if rng.chance(2, 5) else 0
+        h = regs[w]
+        both = regs[0] + regs[1]
+        r = rng.below(100)
+        if r < 34:
+            x = rng.choice(both) if both and rng.chance(1, 3) else row()
+            ops.append(["ins", w, x])
+            h.append(x)
+        elif r < 42:
+            ops.append([rng.choice(["merge", "lmerge"]), w])
+            regs[w] = h + regs[1 - w]
+        elif r < 54:
+            ops.append(["contains", w, rng.choice(both) if both and rng.chance(3, 5) else row()])
+        elif r < 61:
+            ops.append(["iter", w])
+        elif r < 72:
+            base = rng.choice(both) if both and rng.chance(3, 4) else row()
+            ops.append(["prefix", w, base[:rng.range(0, arity)]])
+        elif r < 79:
+            ops.append(["leaf", w, rng.choice(both) if both and rng.chance(3, 4) else row()])
+        elif r < 91:
+            ops.append(["cmp", w])
+        elif r < 96:
+            ops.append(["eq", w])
+        elif r < 97:
+            ops.append(["height", w])
+        else:
+            ops.append(["is_bot", w])
+    return {"k": "ght", "shape": shape, "ops": ops, "src": "rnd"}
+
+
+def gen_ght(rng, tier, n):
+    cases = load_corpus("C08")
+    while len(cases) < n:
+        cases.append(gen_ght_case(rng, tier))
+    return cases
+
+
+def shrink_ght(case):
+    ops = case["ops"]
+    n = len(ops)
+
+    def mk(new_ops):
+        c = dict(case)
+        c["ops"] = new_ops
+        c["src"] = "shrunk"
+        return c
+
+    size = n // 2
+    while size >= 1:
+        for i in range(0, n, size):
+            new = ops[:i] + ops[i + size:]
+            if new:
+                yield mk(new)
+        size //= 2
+    for i, op in enumerate(ops):
+        if op[0] in ("ins", "contains", "leaf", "prefix"):
+            for j, x in enumerate(op[2]):
+                if x > 0:
+                    r = list(op[2])
+                    r[j] = 0
+                    yield mk(ops[:i] + [[op[0], op[1], r]] + ops[i + 1:])
+
+
+def ght_nontrivial(case, res):
+    names = [o[0] for o in case["ops"]]
+    return "ins" in names and any(x not in ("ins", "height") for x in names)
+
+
+def ght_distribution(cases, results):
+    d = {"shape": {}, "ops": {}, "cmp": {}, "merge_changed": {"true": 0, "false": 0},
+         "history_len": {"1-5": 0, "6-20": 0, "21-40": 0, "41+": 0}, "prefix_len": {},
+         "leaf_found": 0, "leaf_missing": 0, "case_level_panics_or_hangs": 0}
+    for c, r in zip(cases, results):
+        d["shape"][c["shape"]] = d["shape"].get(c["shape"], 0) + 1
+        n = len(c["ops"])
+        d["history_len"]["1-5" if n <= 5 else "6-20" if n <= 20 else "21-40" if n <= 40 else "41+"] += 1
+        for op in c["ops"]:
+            d["ops"][op[0]] = d["ops"].get(op[0], 0) + 1
+            if op[0] == "prefix":
+                k = str(len(op[2]))
+                d["prefix_len"][k] = d["prefix_len"].get(k, 0) + 1
+        if "ans" not in r:
+            d["case_level_panics_or_hangs"] += 1
+            continue
+        for op, a in zip(c["ops"], r["ans"]):
+            if not isinstance(a, dict):
+                continue
+            if op[0] == "cmp":
+                k = "panic" if "panic" in a else a.get("cmp", "?")
+                d["cmp"][k] = d["cmp"].get(k, 0) + 1
+            if op[0] in ("merge", "lmerge") and "b" in a:
+                d["merge_changed"]["true" if a["b"] else "false"] += 1
+            if op[0] == "leaf" and "optrows" in a:
+                d["leaf_found" if a["optrows"] is not None else "leaf_missing"] += 1
+    return d
